@@ -175,9 +175,6 @@ Definition holder_trace (t0 : Z) (a : acq_lat) (cs : list cyc_lat) (period : Z) 
 (* the holder dies after its k-th file-system operation: nothing after it ever lands *)
 Definition dead_after (k : nat) (tr : list ev) : list ev := firstn k tr.
 
-Fixpoint max_val (evs : list ev) (d : Z) : Z :=
-  match evs with [] => d | e :: r => Z.max (e_val e) (max_val r d) end.
-
 Fixpoint last_at (evs : list ev) (d : Z) : Z :=
   match evs with [] => d | e :: r => last_at r (e_at e) end.
 
